@@ -236,8 +236,11 @@ pub fn finish(rep: Report, mut st: Stats, start: Instant) -> i32 {
         "wall_s": start.elapsed().as_secs_f64(),
         "violations": st.violations.len(),
     });
-    std::fs::create_dir_all(format!("{VERIF_DIR}/evidence")).ok();
-    let path = format!("{VERIF_DIR}/evidence/{id}.json");
+    // runs against a deliberately broken tree (tools/run_seed.sh) must not overwrite the evidence of the
+    // real tree: they redirect it
+    let dir = std::env::var("VERIF_EVIDENCE_DIR").unwrap_or_else(|_| format!("{VERIF_DIR}/evidence"));
+    std::fs::create_dir_all(&dir).ok();
+    let path = format!("{dir}/{id}.json");
     if let Err(e) = std::fs::write(&path, serde_json::to_string_pretty(&evidence).unwrap()) {
         machinery(&format!("cannot write {path}: {e}"));
     }
